@@ -496,7 +496,17 @@ fn dump(tcx: TyCtxt<'_>) {
     let mut consts = vec![];
     let eff = tcx.effective_visibilities(());
 
-    for ldid in tcx.hir_crate_items(()).definitions() {
+    // items, plus closures / coroutines (body owners that are not items)
+    let mut all_defs: Vec<LocalDefId> = tcx.hir_crate_items(()).definitions().collect();
+    {
+        let seen: std::collections::HashSet<LocalDefId> = all_defs.iter().copied().collect();
+        for bo in tcx.hir_body_owners() {
+            if !seen.contains(&bo) && matches!(tcx.def_kind(bo.to_def_id()), DefKind::Closure) {
+                all_defs.push(bo);
+            }
+        }
+    }
+    for ldid in all_defs {
         let did = ldid.to_def_id();
         let dk = tcx.def_kind(did);
         match dk {
